@@ -226,10 +226,6 @@ end
 theorem allowRhs_congr {a b : Node} (h : a.ctorIdx = b.ctorIdx) : allowRhs a = allowRhs b := by
   simp only [allowRhs, isBinop_ctorIdx, isConst_ctorIdx, isId_ctorIdx, isUnop_ctorIdx, h]
 
-theorem unopArg_congr {a b : Node} (h : a.ctorIdx = b.ctorIdx) :
-    (a.isId || a.isConst || a.isUnop) = (b.isId || b.isConst || b.isUnop) := by
-  simp only [isConst_ctorIdx, isId_ctorIdx, isUnop_ctorIdx, h]
-
 theorem rmCast_nc (n : Node) (h : n.isCast = false) : n.rmCast = n := by
   cases n
   case cast => cases h
@@ -255,6 +251,52 @@ theorem covN_rmCast_ctorIdx (e : Node) :
 theorem isCompound_congr {a b : Node} (h : a.ctorIdx = b.ctorIdx) :
     a.isCompound = b.isCompound := by
   simp only [isCompound_ctorIdx, h]
+
+/-- the operator of a unary operation -/
+def unopOp? : Node → Option String
+  | .unop op _ => some op
+  | _ => none
+
+theorem nestedOk_eq (op : String) (m : Node) :
+    nestedOk op m = match unopOp? m with
+      | some op' => (op == "!" || op == "sizeof") && !Gen.incDec.contains op'
+      | none => false := by
+  cases m <;> rfl
+
+theorem unopOp?_of_not_unop {m : Node} (h : m.isUnop = false) : unopOp? m = none := by
+  cases m
+  case unop => cases h
+  all_goals rfl
+
+/-- the removal pass keeps the operator of a unary operation, also under casts -/
+theorem covN_rmCast_unopOp (e : Node) :
+    ∀ a, covN e = .ok a → unopOp? a.mod.rmCast = unopOp? e.rmCast := by
+  intro a h
+  cases e with
+  | cast e' =>
+    simp only [covN_cast, bind_eq_ok, Except.ok.injEq] at h
+    obtain ⟨a', ha', rfl⟩ := h
+    simp only [Node.rmCast]
+    exact covN_rmCast_unopOp e' a' ha'
+  | unop op e' =>
+    rw [covN_unop] at h
+    split at h
+    · simp only [bind_eq_ok, Except.ok.injEq] at h
+      obtain ⟨a', _, rfl⟩ := h
+      rfl
+    · cases h; rfl
+  | _ =>
+    have hi := covN_ctorIdx _ a h
+    have h1 : a.mod.isCast = false := by rw [isCast_ctorIdx, hi]; rfl
+    have h2 : a.mod.isUnop = false := by rw [isUnop_ctorIdx, hi]; rfl
+    rw [rmCast_nc _ h1, unopOp?_of_not_unop h2]
+    rfl
+
+theorem unopArg_mod (op : String) (e : Node) (a : Cov) (h : covN e = .ok a) :
+    (a.mod.rmCast.isId || a.mod.rmCast.isConst || nestedOk op a.mod.rmCast) =
+      (e.rmCast.isId || e.rmCast.isConst || nestedOk op e.rmCast) := by
+  rw [nestedOk_eq, nestedOk_eq, covN_rmCast_unopOp e a h, isId_ctorIdx, isConst_ctorIdx,
+    isId_ctorIdx e.rmCast, isConst_ctorIdx e.rmCast, covN_rmCast_ctorIdx e a h]
 
 theorem allowRhs_mod (r : Node) (c : Cov) (h : covN r = .ok c) :
     allowRhs c.mod.rmCast = allowRhs r.rmCast :=
@@ -305,7 +347,7 @@ theorem covN_mod_full :
     · rename_i hc
       simp only [bind_eq_ok, Except.ok.injEq] at h
       obtain ⟨a, ha, rfl⟩ := h
-      rw [← unopArg_congr (covN_rmCast_ctorIdx e a ha)] at hc
+      rw [← unopArg_mod op e a ha] at hc
       simp only [covN_unop, hc, if_true, covN_mod_full e a ha hu, ok_bind]
     · cases h; cases hu
   | .assign op l r => by
